@@ -513,11 +513,12 @@ Section RoundTrip.
       { unfold M. rewrite <- app_assoc. change 12 with (lenN (hdr_wire h')). apply dropN_app_exact. }
       unfold be0. apply (slice_view _ _ _ S); [lia|exact D12]. }
     rewrite Sb. cbn [bind].
-    assert (Ssg : slice (M ++ S) (sigstart + lenN (sig_rdata r)) (lenN (M ++ S)) = Ok sg).
+    assert (Elen : lenN (M ++ S) = sigstart + lenN (sig_rdata r) + lenN sg) by (unfold sigstart; lia).
+    rewrite Elen.
+    assert (Ssg : slice (M ++ S) (sigstart + lenN (sig_rdata r)) (sigstart + lenN (sig_rdata r) + lenN sg) = Ok sg).
     { assert (Dg : dropN (sigstart + lenN (sig_rdata r)) (M ++ S) = sg ++ []).
       { rewrite dropN_add, D2, dropN_app_exact. now rewrite app_nil_r. }
-      replace (lenN (M ++ S)) with (sigstart + lenN (sig_rdata r) + lenN sg) at 2 by (unfold sigstart; lia).
-      apply (slice_view _ _ _ []); [unfold sigstart; lia|exact Dg]. }
+      apply (slice_view _ _ _ []); [lia|exact Dg]. }
     rewrite Ssg. cbn [bind].
     apply Hsound. rewrite <- Hss. f_equal. f_equal.
     (* hashed by Verify = hashed by Sign *)
@@ -528,3 +529,158 @@ Section RoundTrip.
     rewrite <- !app_assoc. reflexivity.
   Qed.
 End RoundTrip.
+
+(* ---------- what a successful Verify has checked ---------- *)
+Section Sound.
+  Variable sc : N -> bytes -> bytes -> res unit.
+
+  Theorem verify_sound0 r kname buf now :
+    sig0_verify sc r kname buf now = Ok tt ->
+    exists adc bodyend sigstart sigend rd h10 body sg expire incept signer,
+      key_fields_bad r = false /\ has_hash (s_alg r) = true /\
+      be_at 2 buf 10 = Ok adc /\ 12 <= bodyend /\
+      slice buf sigstart sigend = Ok rd /\ slice buf 0 10 = Ok h10 /\
+      slice buf 12 bodyend = Ok body /\ slice buf sigend (lenN buf) = Ok sg /\
+      be_at 4 buf (sigstart + 8) = Ok expire /\ be_at 4 buf (sigstart + 8 + 4) = Ok incept /\
+      incept <= now <= expire /\
+      unpack_name buf (sigstart + 8 + 8 + 2) = Ok (signer, sigend) /\ name_equal signer kname = true /\
+      sc (s_alg r) (rd ++ h10 ++ [0; (adc + 65535) mod 65536 mod 256] ++ body) sg = Ok tt.
+  Proof.
+    unfold sig0_verify. intros H.
+    destruct (key_fields_bad r) eqn:Ek; [discriminate|].
+    destruct (has_hash (s_alg r)) eqn:Eh; [|discriminate]. cbn [negb] in H.
+    apply bind_ok in H. destruct H as (qdc & _ & H).
+    apply bind_ok in H. destruct H as (anc & _ & H).
+    apply bind_ok in H. destruct H as (auc & _ & H).
+    apply bind_ok in H. destruct H as (adc & Hadc & H).
+    apply bind_ok in H. destruct H as (o1 & Hq & H). apply q_loop_mono in Hq.
+    apply bind_ok in H. destruct H as (bodyend & Hr & H). apply rr_loop_mono in Hr.
+    destruct (lenN buf <=? bodyend); [discriminate|].
+    apply bind_ok in H. destruct H as ([ls o2] & _ & H).
+    destruct (lenN buf <=? o2 + 10 + 8 + 8); [discriminate|].
+    apply bind_ok in H. destruct H as (expire & Hx & H).
+    apply bind_ok in H. destruct H as (incept & Hi & H).
+    destruct ((now <? incept) || (expire <? now)) eqn:Ew; [discriminate|].
+    apply orb_false_elim in Ew. destruct Ew as [W1 W2]. apply N.ltb_ge in W1. apply N.ltb_ge in W2.
+    apply bind_ok in H. destruct H as ([signer sigend] & Hs & H).
+    destruct (name_equal signer kname) eqn:En; [|discriminate]. cbn [negb] in H.
+    apply bind_ok in H. destruct H as (data & Hd & H).
+    apply bind_ok in H. destruct H as (sg & Hsg & H).
+    unfold verify_data in Hd.
+    apply bind_ok in Hd. destruct Hd as (rd & Hrd & Hd).
+    apply bind_ok in Hd. destruct Hd as (h10 & H10 & Hd).
+    apply bind_ok in Hd. destruct Hd as (body & Hb & Hd).
+    assert (Ed : data = rd ++ h10 ++ [0; (adc + 65535) mod 65536 mod 256] ++ body).
+    { replace 0 with (((adc + 65535) mod 65536 * 256) mod 65536 mod 256) at 1 by lia. congruence. }
+    subst data.
+    exists adc, bodyend, (o2 + 10), sigend, rd, h10, body, sg, expire, incept, signer.
+    repeat split; try assumption; try lia.
+    all: try exact (fun _ _ => Ok []); exact (fun _ _ _ => Ok tt).
+  Qed.
+
+  (* idealisation, named: a signature fits one digest input only *)
+  Theorem same_sig_same_data r1 r2 k1 k2 buf1 buf2 now1 now2 :
+    (forall a1 a2 d1 d2 s, sc a1 d1 s = Ok tt -> sc a2 d2 s = Ok tt -> d1 = d2) ->
+    sig0_verify sc r1 k1 buf1 now1 = Ok tt -> sig0_verify sc r2 k2 buf2 now2 = Ok tt ->
+    forall e1 e2 sg, slice buf1 e1 (lenN buf1) = Ok sg -> slice buf2 e2 (lenN buf2) = Ok sg ->
+    (forall adc bodyend sigstart rd h10 body,
+        be_at 2 buf1 10 = Ok adc -> slice buf1 sigstart e1 = Ok rd -> slice buf1 0 10 = Ok h10 ->
+        slice buf1 12 bodyend = Ok body ->
+        sc (s_alg r1) (rd ++ h10 ++ [0; (adc + 65535) mod 65536 mod 256] ++ body) sg = Ok tt ->
+        forall adc' bodyend' sigstart' rd' h10' body',
+          be_at 2 buf2 10 = Ok adc' -> slice buf2 sigstart' e2 = Ok rd' -> slice buf2 0 10 = Ok h10' ->
+          slice buf2 12 bodyend' = Ok body' ->
+          sc (s_alg r2) (rd' ++ h10' ++ [0; (adc' + 65535) mod 65536 mod 256] ++ body') sg = Ok tt ->
+          rd ++ h10 ++ [0; (adc + 65535) mod 65536 mod 256] ++ body =
+          rd' ++ h10' ++ [0; (adc' + 65535) mod 65536 mod 256] ++ body').
+  Proof.
+    intros Hbind _ _ e1 e2 sg _ _ adc bodyend sigstart rd h10 body _ _ _ _ C1
+           adc' bodyend' sigstart' rd' h10' body' _ _ _ _ C2.
+    eapply Hbind; eassumption.
+  Qed.
+End Sound.
+
+(* ---------- the data SIG.Sign hashes determines the SIG fields and the message ---------- *)
+Lemma u8_inj a b : a < 256 -> b < 256 -> u8 a = u8 b -> a = b.
+Proof. unfold u8. intros Ha Hb H. inversion H. rewrite !N.mod_small in H1 by assumption. exact H1. Qed.
+
+Lemma sign_data_injective r1 r2 m1 m2 :
+  s_alg r1 < 256 -> s_alg r2 < 256 -> s_expire r1 < 4294967296 -> s_expire r2 < 4294967296 ->
+  s_incept r1 < 4294967296 -> s_incept r2 < 4294967296 -> s_keytag r1 < 65536 -> s_keytag r2 < 65536 ->
+  valid_wire (s_signer r1) = true -> valid_wire (s_signer r2) = true ->
+  sig_rdata r1 ++ m1 = sig_rdata r2 ++ m2 ->
+  s_alg r1 = s_alg r2 /\ s_expire r1 = s_expire r2 /\ s_incept r1 = s_incept r2 /\
+  s_keytag r1 = s_keytag r2 /\ s_signer r1 = s_signer r2 /\ m1 = m2.
+Proof.
+  intros A1 A2 X1 X2 I1 I2 K1 K2 V1 V2 H. unfold sig_rdata in H. rewrite <- !app_assoc in H.
+  apply app_inv_head in H.
+  apply app_eq_len_l in H; [|reflexivity]. destruct H as [Ea H].
+  apply app_inv_head in H. apply app_inv_head in H.
+  apply app_eq_len_l in H; [|reflexivity]. destruct H as [Ex H].
+  apply app_eq_len_l in H; [|reflexivity]. destruct H as [Ei H].
+  apply app_eq_len_l in H; [|reflexivity]. destruct H as [Ek H].
+  apply wire_name_prefix_free in H; try assumption. destruct H as [Es Em].
+  apply u8_inj in Ea; try assumption. apply u32_inj in Ex, Ei; try assumption.
+  apply u16_inj in Ek; try assumption. repeat split; assumption.
+Qed.
+
+(* ---------- concrete instances: non-vacuity and the two defects ---------- *)
+Definition ex_ss (_ : N) (d : bytes) : res bytes := Ok d.          (* the signature is the data *)
+Definition ex_sc (_ : N) (d s : bytes) : res unit := if bytes_eqb d s then Ok tt else Err "sig".
+Definition ex_sig : sigrr := Build_sigrr 15 2000 1000 4660 true [[107; 101; 121]].
+(* n additional records: . TYPE65300 IN 0 with empty RDATA *)
+Definition ex_rr : bytes := [0; 255; 20; 0; 1; 0; 0; 0; 0; 0; 0].
+Definition ex_msg (n : nat) : bytes :=
+  hdr_wire (Build_hdr 4660 256 1 0 0 (N.of_nat n)) ++
+  ([7; 101; 120; 97; 109; 112; 108; 101; 0; 0; 1; 0; 1] ++ concat (repeat ex_rr n)).
+
+Example ex_sig_sound : forall d s, ex_ss 15 d = Ok s -> ex_sc 15 d s = Ok tt.
+Proof. unfold ex_ss, ex_sc. intros d s H. inversion H. now rewrite bytes_eqb_refl. Qed.
+
+Example ex_sig_binding : forall a1 a2 d1 d2 s, ex_sc a1 d1 s = Ok tt -> ex_sc a2 d2 s = Ok tt -> d1 = d2.
+Proof.
+  unfold ex_sc. intros a1 a2 d1 d2 s H1 H2.
+  destruct (bytes_eqb d1 s) eqn:E1; [|discriminate]. destruct (bytes_eqb d2 s) eqn:E2; [|discriminate].
+  apply bytes_eqb_eq in E1. apply bytes_eqb_eq in E2. congruence.
+Qed.
+
+(* a message with 2 additional records: signed, verified inside the window,
+   rejected outside it, with another key name, and after altering one octet *)
+Example ex_sign_verify :
+  match sig0_sign ex_ss (lenN (ex_msg 2)) (lenN (ex_msg 2)) (ex_msg 2) ex_sig with
+  | Ok out =>
+    sig0_verify ex_sc ex_sig [[75; 69; 89]] out 1500 = Ok tt /\
+    sig0_verify ex_sc ex_sig [[107; 101; 121]] out 999 = Err "time" /\
+    sig0_verify ex_sc ex_sig [[107; 101; 121]] out 2001 = Err "time" /\
+    sig0_verify ex_sc ex_sig [[120]] out 1500 = Err "signer" /\
+    sig0_verify ex_sc ex_sig [[107; 101; 121]] (takeN 31 out ++ [9] ++ dropN 32 out) 1500 = Err "sig"
+  | _ => False
+  end.
+Proof. vm_compute. repeat split; reflexivity. Qed.
+
+(* defect 1: Len() of the compressed form plus the SIG is not above the
+   uncompressed length: ErrBuf although the message packs *)
+Example sign_errbuf_witness :
+  sig0_sign ex_ss (lenN (ex_msg 2) - 34) (lenN (ex_msg 2)) (ex_msg 2) ex_sig = Err "buf" /\
+  sig0_sign ex_ss (lenN (ex_msg 2) - 33) (lenN (ex_msg 2)) (ex_msg 2) ex_sig <> Err "buf".
+Proof. vm_compute. split; [reflexivity|discriminate]. Qed.
+
+(* defect 2: byte((adc-1)<<8) is 0: with 255 additional records the signed
+   message verifies, with 256 the hashed octets differ from the signed ones *)
+Example verify_arcount_witness :
+  match sig0_sign ex_ss 5000 5000 (ex_msg 255) ex_sig, sig0_sign ex_ss 5000 5000 (ex_msg 256) ex_sig with
+  | Ok o255, Ok o256 =>
+    sig0_verify ex_sc ex_sig [[107; 101; 121]] o255 1500 = Ok tt /\
+    sig0_verify ex_sc ex_sig [[107; 101; 121]] o256 1500 = Err "sig"
+  | _, _ => False
+  end.
+Proof. vm_compute. split; reflexivity. Qed.
+
+Example ex_wf_msg : wf_body ex_chk (Build_hdr 4660 256 1 0 0 2)
+                            ([7; 101; 120; 97; 109; 112; 108; 101; 0; 0; 1; 0; 1] ++ concat (repeat ex_rr 2)).
+Proof.
+  intros hd Hl. unfold lenN in Hl.
+  do 12 (destruct hd as [|? hd]; [cbn in Hl; lia|]).
+  destruct hd; [|cbn [length] in Hl; lia].
+  vm_compute. reflexivity.
+Qed.
